@@ -220,28 +220,120 @@ def rule_owner(ctx) -> None:
                   "with owner_scope=agent it returns other owners' episodes")
 
 
+def _thr_names(fn: Func) -> set:
+    """names holding the similarity threshold in fn: the parameter, and locals read from hints['sim_threshold'] (or a float() of them)"""
+    out = {p for p in fn.params if p == "sim_threshold"}
+    for _ in range(2):
+        for x in walk_no_defs(fn.node):
+            if isinstance(x, ast.Assign) and len(x.targets) == 1 and isinstance(x.targets[0], ast.Name):
+                v = x.value
+                while isinstance(v, ast.Call) and dotted(v.func) == "float" and v.args:
+                    v = v.args[0]
+                if isinstance(v, ast.IfExp):
+                    v = v.body
+                if isinstance(v, ast.Call) and call_tail(v) == "get" and v.args and const_str(v.args[0]) == "sim_threshold":
+                    out.add(x.targets[0].id)
+                if isinstance(v, ast.Subscript) and const_str(v.slice) == "sim_threshold":
+                    out.add(x.targets[0].id)
+                if isinstance(v, ast.Name) and v.id in out:
+                    out.add(x.targets[0].id)
+    return out
+
+
+def admits_at_or_above(test: ast.AST, pol: bool, thr: set) -> str:
+    """does `test` having truth value `pol` imply score >= threshold?  'yes' (also for a NaN score: a positive >= / > test),
+    'unless-nan' (only the negation of < / <= is known - a NaN score passes), 'vacuous' (no threshold configured), 'no'."""
+    def has_thr(e):
+        return any(isinstance(x, ast.Name) and x.id in thr for x in ast.walk(e))
+
+    if isinstance(test, ast.UnaryOp) and isinstance(test.op, ast.Not):
+        return admits_at_or_above(test.operand, not pol, thr)
+    if isinstance(test, ast.BoolOp):
+        conj = (isinstance(test.op, ast.And) and pol) or (isinstance(test.op, ast.Or) and not pol)
+        rs = [admits_at_or_above(v, pol, thr) for v in test.values]
+        if conj:  # all operands have truth value pol: one of them suffices
+            for want in ("yes", "unless-nan", "vacuous"):
+                if want in rs:
+                    return want
+            return "no"
+        # at least one operand has truth value pol: every alternative must do
+        if all(r in ("yes", "vacuous") for r in rs) and "yes" in rs:
+            return "yes"
+        if all(r in ("yes", "vacuous", "unless-nan") for r in rs) and any(r != "vacuous" for r in rs):
+            return "unless-nan"
+        return "no"
+    if isinstance(test, ast.Compare) and len(test.ops) == 1:
+        l, op, r = test.left, test.ops[0], test.comparators[0]
+        if isinstance(op, (ast.Is, ast.IsNot)) and isinstance(r, ast.Constant) and r.value is None and has_thr(l):
+            # `thr is None` true / `thr is not None` false: nothing to meet
+            return "vacuous" if (isinstance(op, ast.Is) == pol) else "no"
+        if has_thr(r) and not has_thr(l):
+            if isinstance(op, (ast.GtE, ast.Gt)):
+                return "yes" if pol else "no"
+            if isinstance(op, (ast.Lt,)):
+                return "unless-nan" if not pol else "no"
+        if has_thr(l) and not has_thr(r):
+            if isinstance(op, (ast.LtE, ast.Lt)):
+                return "yes" if pol else "no"
+            if isinstance(op, (ast.Gt,)):
+                return "unless-nan" if not pol else "no"
+    return "no"
+
+
+def _finite_guard(test: ast.AST, pol: bool) -> bool:
+    """isfinite(score) / not isnan(score) / score == score on the way"""
+    if isinstance(test, ast.UnaryOp) and isinstance(test.op, ast.Not):
+        return _finite_guard(test.operand, not pol)
+    if isinstance(test, ast.BoolOp) and ((isinstance(test.op, ast.And) and pol) or (isinstance(test.op, ast.Or) and not pol)):
+        return any(_finite_guard(v, pol) for v in test.values)
+    if isinstance(test, ast.Call):
+        t = call_tail(test)
+        return (t == "isfinite" and pol) or (t == "isnan" and not pol)
+    if isinstance(test, ast.Compare) and len(test.ops) == 1 and src(test.left) == src(test.comparators[0]):
+        return (isinstance(test.ops[0], ast.Eq) and pol) or (isinstance(test.ops[0], ast.NotEq) and not pol)
+    return False
+
+
 def rule_thr(ctx) -> None:
+    """an episode enters a scored list only on a path where `score >= threshold` is known to be TRUE.  The negated form
+    (`if s < t: continue`) is not the same test: a NaN cosine (stored vector with a non-finite component) fails `<` as well, is
+    returned below the threshold and breaks the total order of the (-score, id) sort that picks the top k."""
     sites = []
-    for q in (IDX + ":InMemoryIndex._rank_by_cosine", LANCE + ":LanceIndex.search_tiered"):
-        fn = ctx.func(q)
+    fns = [ctx.func(IDX + ":InMemoryIndex._rank_by_cosine"), ctx.func(LANCE + ":LanceIndex.search_tiered")]
+    fns += [f for f in ctx.prog.all_funcs(LANCE + ":") if f.name == "search_tiered" and f.qual != LANCE + ":LanceIndex.search_tiered"]
+    for fn in fns:
         cfg = ctx.cfg(fn)
+        rd = ctx.rd(fn)
+        # role: the scored list = the list that is sorted and sliced for the return value
+        sorted_lists = {src(c.func.value) for n in cfg.nodes for c in node_calls(n) if call_tail(c) == "sort" and isinstance(c.func.value, ast.Name)}
+        knames = {p for p in fn.params if p == "k"}
+        for _ in range(2):
+            for x in walk_no_defs(fn.node):
+                if isinstance(x, ast.Assign) and len(x.targets) == 1 and isinstance(x.targets[0], ast.Name) and any(isinstance(y, ast.Name) and y.id in knames for y in ast.walk(x.value)):
+                    knames.add(x.targets[0].id)
+        # ... and cut to k (the cluster-centroid list is sorted too, but cut to clusters_top_m and has no threshold)
+        sorted_lists = {L for L in sorted_lists if any(isinstance(x, ast.Subscript) and src(x.value) == L and isinstance(x.slice, ast.Slice) and x.slice.upper is not None
+                                                       and any(isinstance(y, ast.Name) and y.id in knames for y in ast.walk(x.slice.upper)) for x in walk_no_defs(fn.node))}
         for n in cfg.nodes:
             for c in node_calls(n):
-                if call_tail(c) == "append" and src(c.func.value) == "scored":
+                if call_tail(c) == "append" and src(c.func.value) in sorted_lists and c.args and isinstance(c.args[0], ast.Tuple):
                     sites.append((fn, n, c))
-    for f in ctx.prog.all_funcs(LANCE + ":"):
-        if f.name == "search_tiered" and f.qual != LANCE + ":LanceIndex.search_tiered":
-            cfg = ctx.cfg(f)
-            for n in cfg.nodes:
-                for c in node_calls(n):
-                    if call_tail(c) == "append" and src(c.func.value) == "scored":
-                        sites.append((f, n, c))
-    ctx.floor("C11.THR", "appends to scored lists", len(sites), 2)
+    ctx.floor("C11.THR", "appends to scored lists", len(sites), 3)
     for fn, n, c in sites:
-        facts = ctx.cfg(fn).facts(n)
-        ok = any("sim_threshold" in t and ((p and ">=" in t) or ((not p) and "<" in t and ">=" not in t)) for t, p in facts)
-        ctx.check(ok, "C11.THR", f"{fn.qual}/threshold-dominates-append", fn.loc(c), "a record is scored into the result only where score >= sim_threshold",
-                  "a record is appended to the scored list without the similarity-threshold test")
+        thr = _thr_names(fn)
+        if not thr:
+            raise AnalysisError(f"anchor-vanished: no similarity-threshold variable in {fn.qual}")
+        gs = ctx.cfg(fn).guards(n)
+        verdicts = [admits_at_or_above(t, p, thr) for t, p, _ in gs]
+        finite = any(_finite_guard(t, p) for t, p, _ in gs)
+        key = f"{fn.qual}/threshold-dominates-append"
+        if "yes" in verdicts or ("unless-nan" in verdicts and finite):
+            ctx.holds("C11.THR", key, fn.loc(c), "a record is scored into the result only where `score >= sim_threshold` is true (a NaN score is not admitted)")
+        elif "unless-nan" in verdicts:
+            ctx.violation("C11.THR", key, fn.loc(c), "a record is dropped where `score < sim_threshold`, which is not the same as keeping it where `score >= sim_threshold`: a NaN cosine "
+                          "(stored vector with a non-finite component) fails both, so the episode is returned below the threshold and the (-score, id) sort that picks the top k is no longer a total order")
+        else:
+            ctx.violation("C11.THR", key, fn.loc(c), "a record is appended to the scored list without the similarity-threshold test")
 
 
 def rule_k(ctx) -> None:
